@@ -121,11 +121,37 @@ theorem take_nonzero_pos (w : List α) (hnn : ∀ x ∈ w, 0 ≤ x) (hs : nonInc
       rw [hfil] at hq
       simp at hq
 
-theorem susIdx_length (p : List α) (k : Nat) (sigma sel : List Nat) (o : α)
-    (h : susIdx p k sigma o = .ok sel) : sel.length = k := by
-  obtain ⟨_, _, _, _, hw⟩ := (susIdx_ok_iff p k sigma o sel).mp h
+theorem susIdxCore_length (p : List α) (k : Nat) (sigma sel : List Nat) (o : α)
+    (h : susIdxCore p k sigma o = .ok sel) : sel.length = k := by
+  obtain ⟨_, _, _, _, hw⟩ := (susIdxCore_ok_iff p k sigma o sel).mp h
   rw [walkG_length _ _ _ _ _ hw]
   simp
+
+theorem susIdx_zero (p : List α) (sigma : List Nat) (o : α) : susIdx p 0 sigma o = .ok [] := by
+  simp [susIdx]
+
+theorem susIdx_pos (p : List α) (k : Nat) (sigma : List Nat) (o : α) (hk : k ≠ 0) :
+    susIdx p k sigma o = susIdxCore p k sigma o := by
+  simp [susIdx, hk]
+
+/-- a successful call: either an empty request answered with no draw, or a run of the loop -/
+theorem susDraws_cases (p : List α) (size sigma perm idx : List Nat) (o : α)
+    (h : susDraws p size sigma o perm = .ok idx) :
+    (size.prod = 0 ∧ idx = []) ∨
+    (size.prod ≠ 0 ∧ ∃ sel, susIdxCore p size.prod sigma o = .ok sel ∧ perm.Perm (List.range sel.length) ∧
+      idx = applyPerm perm sel) := by
+  obtain ⟨sel, hsel, hperm, rfl⟩ := (susDraws_ok_iff p size sigma o perm idx).mp h
+  by_cases hk : size.prod = 0
+  · left
+    rw [hk, susIdx_zero] at hsel
+    injection hsel with hsel
+    subst hsel
+    have : perm = [] := by simpa using hperm
+    subst this
+    exact ⟨hk, rfl⟩
+  · right
+    rw [susIdx_pos p _ sigma o hk] at hsel
+    exact ⟨hk, sel, hsel, hperm, rfl⟩
 
 end sorted
 end Sampling
